@@ -87,7 +87,8 @@ let () =
   try
     while true do
       let line = input_line stdin in
-      if String.length line > 0 && line.[0] = '#' then print_endline (big line) else begin
+      if String.length line > 0 && line.[0] = '!' then print_endline "oracle-only"
+      else if String.length line > 0 && line.[0] = '#' then print_endline (big line) else begin
       let semi = String.rindex line ';' in
       let head = String.sub line 0 semi in
       let comma = String.rindex head ',' in
